@@ -1,6 +1,6 @@
 (* C04 — proofs about Model/Rng.v: for every generator (type of states, seeding function, transition
    function), every seed, every body, every prior state. *)
-From Coq Require Import ZArith List Bool String Lia.
+From Coq Require Import ZArith List Bool String Lia Permutation.
 From PyxelV Require Import Model.Rng.
 Import ListNotations.
 Open Scope Z_scope.
@@ -11,12 +11,13 @@ Section Facts.
   Variable seed_gen : Z -> gen.
   Variable next : Z -> gen -> gen * val.
   Variable cfg : srs_cfg.
+  Variable swap : Z -> bool.
 
-  Notation exec := (exec gen val seed_gen next cfg).
-  Notation gen_after := (gen_after gen val seed_gen next cfg).
-  Notation events := (events gen val seed_gen next cfg).
-  Notation result := (result gen val seed_gen next cfg).
-  Notation visible := (visible gen val seed_gen next cfg).
+  Notation exec := (exec gen val seed_gen next cfg swap).
+  Notation gen_after := (gen_after gen val seed_gen next cfg swap).
+  Notation events := (events gen val seed_gen next cfg swap).
+  Notation result := (result gen val seed_gen next cfg swap).
+  Notation visible := (visible gen val seed_gen next cfg swap).
 
   (* no hypothesis on cfg: seed None is a no-op bracket *)
   Lemma unseeded_transparent p g : exec (Seeded None p) g = exec p g.
@@ -125,11 +126,11 @@ Section Facts.
     self_seeded p = true ->
     (forall g, gen_after p g = g) /\ (forall g1 g2, visible p g1 = visible p g2).
   Proof.
-    induction p as [| k | | a IHa b IHb | [s|] a IHa | | s]; cbn [self_seeded]; intros H;
-      try discriminate.
-    - split; reflexivity.
-    - apply andb_true_iff in H. destruct H as [Ha Hb].
-      destruct (IHa Ha) as [Fa Va]. destruct (IHb Hb) as [Fb Vb]. split.
+    assert (SEQ : forall a b,
+      ((forall g, gen_after a g = g) /\ (forall g1 g2, visible a g1 = visible a g2)) ->
+      ((forall g, gen_after b g = g) /\ (forall g1 g2, visible b g1 = visible b g2)) ->
+      (forall g, gen_after (Seq a b) g = g) /\ (forall g1 g2, visible (Seq a b) g1 = visible (Seq a b) g2)).
+    { intros a b [Fa Va] [Fb Vb]. split.
       + intros g. specialize (Fa g). specialize (Fb g). unfold gen_after in *. cbn [Rng.exec].
         destruct (exec a g) as [[g1 t1] o1]. cbn in Fa. subst g1. destruct o1; [|reflexivity].
         destruct (exec b g) as [[g2 t2] o2]. cbn in Fb. subst g2. reflexivity.
@@ -138,10 +139,18 @@ Section Facts.
         destruct (exec a g1) as [[h1 t1] o1]. destruct (exec a g2) as [[h2 t2] o2].
         cbn in Va, F1, F2. subst h1 h2. inversion Va; subst t2 o2. destruct o1; [|reflexivity].
         destruct (exec b g1) as [[k1 u1] p1]. destruct (exec b g2) as [[k2 u2] p2].
-        cbn in Vb. inversion Vb; subst. reflexivity.
+        cbn in Vb. inversion Vb; subst. reflexivity. }
+    induction p as [| k | | a IHa b IHb | [s|] a IHa | | s | i a IHa b IHb]; cbn [self_seeded]; intros H;
+      try discriminate.
+    - split; reflexivity.
+    - apply andb_true_iff in H. destruct H as [Ha Hb]. exact (SEQ a b (IHa Ha) (IHb Hb)).
     - split; [intros g; apply restores | intros g1 g2; apply deterministic].
     - destruct (IHa H) as [Fa Va]. split; [exact Fa | exact Va].
     - split; reflexivity.
+    - apply andb_true_iff in H. destruct H as [Ha Hb].
+      pose proof (SEQ a b (IHa Ha) (IHb Hb)) as Sab. pose proof (SEQ b a (IHb Hb) (IHa Ha)) as Sba.
+      unfold gen_after, visible, events, result in *. cbn [Rng.exec] in *.
+      destruct (swap i); [exact Sba | exact Sab].
   Qed.
 
   Lemma observation_self_seeded s bodies : self_seeded (observation_prog true (Some s) bodies) = true.
@@ -190,31 +199,81 @@ Section Facts.
       apply andb_true_iff in H. rewrite (proj1 H). reflexivity.
   Qed.
 
+  Lemma bracketed_fields r :
+    bracketed r = true ->
+    m_outside r = 0 /\ m_bare_seed r = 0 /\ m_bracket_seed r = true /\ m_seed_truthy r = 0.
+  Proof.
+    unfold bracketed. intros H. repeat rewrite andb_true_iff in H.
+    destruct H as [[[Ho Hb] Hs] Ht]. apply Z.eqb_eq in Ho, Hb, Ht. auto.
+  Qed.
+
   Lemma model_bracketed_self_seeded r s k :
     bracketed r = true -> self_seeded (model_prog r (Some s) k) = true.
   Proof.
-    unfold bracketed. intros H. repeat rewrite andb_true_iff in H. destruct H as [[Ho Hb] Hs].
-    apply Z.eqb_eq in Ho, Hb. unfold model_prog. rewrite Ho, Hb, Hs. reflexivity.
+    intros H. destruct (bracketed_fields r H) as (Ho & Hb & Hs & Ht).
+    unfold model_prog, bracket_seed. rewrite Ho, Hb, Hs, Ht. reflexivity.
   Qed.
 
   Lemma model_bracketed_unseeded r k g :
     bracketed r = true ->
-    exec (model_prog r None k) g = exec (if 0 <? m_inside r then Draw (2 * k) else Skip) g.
+    exec (model_prog r None k) g = exec (inside_prog r k) g.
   Proof.
-    unfold bracketed. intros H. repeat rewrite andb_true_iff in H. destruct H as [[Ho Hb] Hs].
-    apply Z.eqb_eq in Ho, Hb. unfold model_prog. rewrite Ho, Hb, Hs. cbn [Rng.exec Z.ltb Z.compare].
-    destruct (exec (if 0 <? m_inside r then Draw (2 * k) else Skip) g) as [[g1 t] o]. reflexivity.
+    intros H. destruct (bracketed_fields r H) as (Ho & Hb & Hs & Ht).
+    unfold model_prog, bracket_seed. rewrite Ho, Hb, Hs, Ht. cbn [Rng.exec Z.ltb Z.compare].
+    destruct (exec (inside_prog r k) g) as [[g1 t] o]. reflexivity.
+  Qed.
+
+  (* a bracketed row hands its bracket exactly the seed it was given - 0 included *)
+  Lemma model_bracketed_seed r seed :
+    bracketed r = true -> bracket_seed r seed = seed.
+  Proof.
+    intros H. destruct (bracketed_fields r H) as (Ho & Hb & Hs & Ht).
+    unfold bracket_seed. rewrite Hs, Ht. reflexivity.
   Qed.
 End Facts.
+
+(* ------------------------------------------------------------------ hash order: one process vs another *)
+
+Section Hash.
+  Variable gen : Type.
+  Variable val : Type.
+  Variable seed_gen : Z -> gen.
+  Variable next : Z -> gen -> gen * val.
+  Variable cfg : srs_cfg.
+
+  (* a program without process-ordered parts behaves the same in every process *)
+  Lemma hash_stable_exec p :
+    hash_stable p = true ->
+    forall (sw1 sw2 : Z -> bool) g,
+      exec gen val seed_gen next cfg sw1 p g = exec gen val seed_gen next cfg sw2 p g.
+  Proof.
+    induction p as [| k | | a IHa b IHb | s a IHa | | s | i a IHa b IHb]; cbn [hash_stable]; intros H sw1 sw2 g;
+      try discriminate; try reflexivity.
+    - apply andb_true_iff in H. destruct H as [Ha Hb]. cbn [Rng.exec].
+      rewrite (IHa Ha sw1 sw2 g). destruct (exec gen val seed_gen next cfg sw2 a g) as [[g1 t1] o1].
+      destruct o1; [|reflexivity]. rewrite (IHb Hb sw1 sw2 g1). reflexivity.
+    - destruct s as [s|]; cbn [Rng.exec].
+      + rewrite (IHa H sw1 sw2). reflexivity.
+      + apply IHa, H.
+  Qed.
+End Hash.
 
 (* ------------------------------------------------------------------ statements over all generators *)
 
 (* a program is reproducible and leak-free: what it shows does not depend on the state the
-   generator is in when it starts, and that state is back afterwards *)
+   generator is in when it starts, and that state is back afterwards (within one process) *)
 Definition reproducible_and_restored (cfg : srs_cfg) (p : prog) : Prop :=
-  forall (gen val : Type) (seed_gen : Z -> gen) (next : Z -> gen -> gen * val) (g1 g2 : gen),
-    visible gen val seed_gen next cfg p g1 = visible gen val seed_gen next cfg p g2 /\
-    gen_after gen val seed_gen next cfg p g1 = g1.
+  forall (gen val : Type) (seed_gen : Z -> gen) (next : Z -> gen -> gen * val) (swap : Z -> bool)
+         (g1 g2 : gen),
+    visible gen val seed_gen next cfg swap p g1 = visible gen val seed_gen next cfg swap p g2 /\
+    gen_after gen val seed_gen next cfg swap p g1 = g1.
+
+(* ... and also from one interpreter process to another (any two hash orders) *)
+Definition reproducible_across_processes (cfg : srs_cfg) (p : prog) : Prop :=
+  forall (gen val : Type) (seed_gen : Z -> gen) (next : Z -> gen -> gen * val) (sw1 sw2 : Z -> bool)
+         (g1 g2 : gen),
+    visible gen val seed_gen next cfg sw1 p g1 = visible gen val seed_gen next cfg sw2 p g2 /\
+    gen_after gen val seed_gen next cfg sw1 p g1 = g1.
 
 Definition mode_reproducible (cfg : srs_cfg) (fw : bool) (m : mode) : Prop :=
   forall (s : Z) (bodies : list prog), reproducible_and_restored cfg (mode_prog m fw (Some s) bodies).
@@ -222,8 +281,32 @@ Definition mode_reproducible (cfg : srs_cfg) (fw : bool) (m : mode) : Prop :=
 Lemma self_seeded_reproducible cfg p :
   cfg_ok cfg = true -> self_seeded p = true -> reproducible_and_restored cfg p.
 Proof.
-  intros Hc Hp gen val seed_gen next g1 g2.
-  destruct (self_seeded_frame gen val seed_gen next cfg Hc p Hp) as [F V]. auto.
+  intros Hc Hp gen val seed_gen next swap g1 g2.
+  destruct (self_seeded_frame gen val seed_gen next cfg swap Hc p Hp) as [F V]. auto.
+Qed.
+
+Lemma self_seeded_stable_across_processes cfg p :
+  cfg_ok cfg = true -> self_seeded p = true -> hash_stable p = true ->
+  reproducible_across_processes cfg p.
+Proof.
+  intros Hc Hp Hh gen val seed_gen next sw1 sw2 g1 g2.
+  destruct (self_seeded_reproducible cfg p Hc Hp gen val seed_gen next sw1 g1 g2) as [V F].
+  split; [|exact F]. rewrite V. unfold visible, events, result.
+  rewrite (hash_stable_exec gen val seed_gen next cfg p Hh sw1 sw2 g2). reflexivity.
+Qed.
+
+(* a seeded block that iterates over a hash-ordered collection: the generator is still restored, but
+   two processes see different draws (free generator; one process swaps site 0, the other does not) *)
+Lemma unordered_not_reproducible cfg :
+  cfg_ok cfg = true ->
+  let p := Seeded (Some 5) (Unord 0 (Draw 0) (Draw 1)) in
+  ~ reproducible_across_processes cfg p /\ reproducible_and_restored cfg p.
+Proof.
+  intros Hc p. split.
+  - intros H. specialize (H fgen fgen fseed fnext (fswap 0) (fswap 1) g_init g_init).
+    destruct H as [H _]. destruct cfg as [a b c d]. unfold cfg_ok in Hc. cbn in Hc.
+    destruct a, b, c, d; try discriminate Hc. vm_compute in H. discriminate H.
+  - apply self_seeded_reproducible; [exact Hc | reflexivity].
 Qed.
 
 Lemma mode_reproducible_fw cfg fw m :
@@ -241,33 +324,93 @@ Proof.
   apply mode_self_seeded_bodies, H.
 Qed.
 
+(* the modes add no process-ordered part of their own *)
+Lemma seq_all_hash_stable bodies : forallb hash_stable bodies = true -> hash_stable (seq_all bodies) = true.
+Proof.
+  induction bodies as [|b r IH]; [reflexivity|]. cbn. intros H. apply andb_true_iff in H.
+  destruct H as [Hb Hr]. rewrite Hb, (IH Hr). reflexivity.
+Qed.
+
+Lemma observation_hash_stable fw seed bodies :
+  forallb hash_stable bodies = true -> hash_stable (observation_prog fw seed bodies) = true.
+Proof.
+  induction bodies as [|b r IH]; [reflexivity|]. cbn [forallb]. intros H.
+  apply andb_true_iff in H. destruct H as [Hb Hr]. unfold observation_prog. cbn [map seq_all hash_stable].
+  fold (observation_prog fw seed r). rewrite (IH Hr), Hb. reflexivity.
+Qed.
+
+Lemma mode_hash_stable m fw seed bodies :
+  forallb hash_stable bodies = true -> hash_stable (mode_prog m fw seed bodies) = true.
+Proof.
+  intros H. destruct m; cbn [mode_prog].
+  - unfold exposure_prog. cbn [hash_stable]. apply seq_all_hash_stable, H.
+  - apply observation_hash_stable, H.
+  - destruct bodies as [|b r]; [reflexivity|]. unfold observation_dask_prog. cbn [hash_stable].
+    rewrite (observation_hash_stable fw seed (b :: r) H), andb_true_r.
+    cbn [forallb] in H. apply andb_true_iff in H. apply H.
+  - unfold calibration_prog. cbn [hash_stable].
+    rewrite (observation_hash_stable fw seed bodies H).
+    rewrite observation_hash_stable; [reflexivity|].
+    destruct bodies as [|b r]; [reflexivity|]. cbn [firstn forallb] in *.
+    apply andb_true_iff in H. rewrite (proj1 H). reflexivity.
+Qed.
+
+Lemma mode_reproducible_across_processes cfg m s bodies :
+  cfg_ok cfg = true -> forallb hash_stable bodies = true ->
+  reproducible_across_processes cfg (mode_prog m true (Some s) bodies).
+Proof.
+  intros Hc Hb. apply self_seeded_stable_across_processes;
+    [exact Hc | apply mode_self_seeded | apply mode_hash_stable, Hb].
+Qed.
+
 (* a mode that does not forward its seed is refuted on the free generator: one draw, two prior states *)
 Lemma mode_not_reproducible_unforwarded cfg m : ~ mode_reproducible cfg false m.
 Proof.
-  intros H. specialize (H 1 [Draw 0] fgen fgen fseed fnext g_init (OInit 1, [])).
+  intros H. specialize (H 1 [Draw 0] fgen fgen fseed fnext no_swap g_init (OInit 1, [])).
   destruct H as [H _]. destruct m; vm_compute in H; discriminate.
+Qed.
+
+Lemma model_order_stable_hash_stable r seed k :
+  order_stable r = true -> hash_stable (model_prog r seed k) = true.
+Proof.
+  unfold order_stable. intros H. apply Z.eqb_eq in H. unfold model_prog, inside_prog. rewrite H.
+  cbn [Z.ltb Z.compare hash_stable].
+  destruct (0 <? m_bare_seed r); [destruct seed|]; destruct (0 <? m_outside r); destruct (0 <? m_inside r); reflexivity.
 Qed.
 
 Lemma models_bracketed_reproducible cfg (tbl : list model_row) :
   cfg_ok cfg = true -> forallb bracketed tbl = true ->
   forall r, In r tbl -> forall s k,
     reproducible_and_restored cfg (model_prog r (Some s) k) /\
-    (forall gen val seed_gen next g,
-       exec gen val seed_gen next cfg (model_prog r None k) g =
-       exec gen val seed_gen next cfg (if 0 <? m_inside r then Draw (2 * k) else Skip) g).
+    bracket_seed r (Some s) = Some s /\
+    (forall gen val seed_gen next swap g,
+       exec gen val seed_gen next cfg swap (model_prog r None k) g =
+       exec gen val seed_gen next cfg swap (inside_prog r k) g).
 Proof.
-  intros Hc Ht r Hr s k. rewrite forallb_forall in Ht. specialize (Ht r Hr). split.
-  - apply self_seeded_reproducible; [exact Hc|]. apply model_bracketed_self_seeded, Ht.
+  intros Hc Ht r Hr s k. rewrite forallb_forall in Ht. specialize (Ht r Hr). split; [|split].
+  - apply self_seeded_reproducible; [exact Hc|].
+    apply model_bracketed_self_seeded, Ht.
+  - apply model_bracketed_seed, Ht.
   - intros. apply model_bracketed_unseeded, Ht.
+Qed.
+
+Lemma models_stable_across_processes cfg (tbl : list model_row) :
+  cfg_ok cfg = true -> forallb bracketed tbl = true -> forallb order_stable tbl = true ->
+  forall r, In r tbl -> forall s k, reproducible_across_processes cfg (model_prog r (Some s) k).
+Proof.
+  intros Hc Hb Ho r Hr s k. rewrite forallb_forall in Hb, Ho.
+  apply self_seeded_stable_across_processes; [exact Hc | |].
+  - apply model_bracketed_self_seeded, Hb, Hr.
+  - apply model_order_stable_hash_stable, Ho, Hr.
 Qed.
 
 (* a broken bracket is refuted on the free generator (used when the regenerated cfg is not cfg_ok):
    restoring a state saved after seeding, or not restoring at all, leaves the seeded state behind *)
 Lemma bad_cfg_leaks cfg :
   cfg_ok cfg = false ->
-  exists p, gen_after fgen fgen fseed fnext cfg (Seeded (Some 7) p) g_init <> g_init
-            \/ visible fgen fgen fseed fnext cfg (Seeded (Some 7) p) g_init
-               <> visible fgen fgen fseed fnext cfg (Seeded (Some 7) p) (OInit 1, []).
+  exists p, gen_after fgen fgen fseed fnext cfg no_swap (Seeded (Some 7) p) g_init <> g_init
+            \/ visible fgen fgen fseed fnext cfg no_swap (Seeded (Some 7) p) g_init
+               <> visible fgen fgen fseed fnext cfg no_swap (Seeded (Some 7) p) (OInit 1, []).
 Proof.
   destruct cfg as [a b c d]. unfold cfg_ok. cbn [save_before_seed reseeds restore_on_normal restore_on_raise].
   intros H.
@@ -279,3 +422,197 @@ Proof.
     + exists (Draw 0). left. vm_compute. discriminate.
   - exists Observe. right. destruct a, c; vm_compute; discriminate.
 Qed.
+
+(* ------------------------------------------------------------------ every way a seed reaches a run *)
+
+Lemma fold_xfer_id (rows : list link) s :
+  forallb (fun r => xfer_is_id (link_xfer r)) rows = true ->
+  fold_left (fun acc r => apply_xfer (link_xfer r) acc) rows s = s.
+Proof.
+  revert s. induction rows as [|r rows IH]; intros s H; [reflexivity|].
+  cbn [forallb] in H. apply andb_true_iff in H. destruct H as [Hr Hrest]. cbn [fold_left].
+  destruct (link_xfer r); try discriminate. cbn [apply_xfer]. apply IH, Hrest.
+Qed.
+
+Lemma forallb_filter_sub {A} (f g h : A -> bool) (l : list A) :
+  (forall x, h x = true -> g x = true) ->
+  forallb f (filter g l) = true -> forallb f (filter h l) = true.
+Proof.
+  intros Hsub. induction l as [|x l IH]; [reflexivity|]. cbn [filter].
+  destruct (h x) eqn:Hh.
+  - rewrite (Hsub x Hh). cbn [forallb]. intros H. apply andb_true_iff in H. destruct H as [H1 H2].
+    rewrite H1. apply IH, H2.
+  - destruct (g x); [cbn [forallb]; intros H; apply andb_true_iff in H; apply IH, H | exact IH].
+Qed.
+
+(* if every link of the mode is the identity, the seed that reaches set_random_seed is the seed that
+   was given - through every entry, for every seed (0 included) and for "no seed" *)
+Lemma forwards_seed_through tbl m :
+  forwards_of tbl m = true -> forall e s, seed_through tbl m e s = s.
+Proof.
+  unfold forwards_of, seed_through. intros H e s. apply andb_true_iff in H. destruct H as [_ H].
+  apply fold_xfer_id.
+  apply (forallb_filter_sub _ (fun r => String.eqb (link_mode r) m) (on_path m e)); [|exact H].
+  intros x Hx. unfold on_path in Hx. apply andb_true_iff in Hx. apply Hx.
+Qed.
+
+(* a truthiness test on the way loses exactly the seed 0 *)
+Lemma truthy_loses_only_zero s :
+  apply_xfer XTruthy (Some s) = (if s =? 0 then None else Some s).
+Proof. destruct s; reflexivity. Qed.
+
+(* ... and then the run configured with seed 0 is the unseeded run: refuted on the free generator *)
+Lemma truthy_link_not_reproducible cfg m :
+  ~ (forall bodies, reproducible_and_restored cfg (mode_prog m true (apply_xfer XTruthy (Some 0)) bodies)).
+Proof.
+  intros H. specialize (H [Draw 0] fgen fgen fseed fnext no_swap g_init (OInit 1, [])).
+  destruct H as [H _]. destruct m; vm_compute in H; discriminate.
+Qed.
+
+(* ------------------------------------------------------------------ islands *)
+
+Lemma lookup_finished seeds order i :
+  In i order -> lookup_task i (finished seeds order) = Some (nth i seeds (-1)).
+Proof.
+  induction order as [|j r IH]; intros H; [contradiction|]. cbn [finished map lookup_task].
+  destruct (Nat.eqb i j) eqn:E.
+  - apply Nat.eqb_eq in E. subst j. reflexivity.
+  - destruct H as [H|H]; [subst j; rewrite Nat.eqb_refl in E; discriminate|]. apply IH, H.
+Qed.
+
+Lemma map_nth_seq (l : list Z) d : map (fun i => nth i l d) (seq 0 (List.length l)) = l.
+Proof.
+  induction l as [|x l IH]; [reflexivity|]. cbn [List.length seq map nth]. f_equal.
+  rewrite <- seq_shift, map_map. exact IH.
+Qed.
+
+(* iterating over the results in submission order: island i gets seed i whatever order the tasks
+   finish in (every task does finish) *)
+Lemma islands_map_order_independent seeds order :
+  (forall i, (i < List.length seeds)%nat -> In i order) ->
+  islands BMap seeds order = seeds.
+Proof.
+  intros H. unfold islands. rewrite <- (map_nth_seq seeds (-1)) at 2.
+  apply map_ext_in. intros i Hi. apply in_seq in Hi. rewrite (lookup_finished seeds order i); [reflexivity|].
+  apply H. apply Hi.
+Qed.
+
+Lemma islands_map_permutation seeds order :
+  Permutation order (seq 0 (List.length seeds)) -> islands BMap seeds order = seeds.
+Proof.
+  intros P. apply islands_map_order_independent. intros i Hi.
+  apply (Permutation_in i (Permutation_sym P)). apply in_seq. lia.
+Qed.
+
+(* iterating over the results as they complete: the island list IS the completion order *)
+Lemma islands_as_completed seeds order :
+  islands BAsCompleted seeds order = map (fun i => nth i seeds (-1)) order.
+Proof. unfold islands, finished. rewrite map_map. reflexivity. Qed.
+
+Lemma islands_as_completed_in_order seeds :
+  islands BAsCompleted seeds (seq 0 (List.length seeds)) = seeds.
+Proof. rewrite islands_as_completed. apply map_nth_seq. Qed.
+
+Lemma islands_as_completed_depends_on_order :
+  exists seeds o1 o2, Permutation o1 (seq 0 (List.length seeds)) /\ Permutation o2 (seq 0 (List.length seeds)) /\
+    islands BAsCompleted seeds o1 <> islands BAsCompleted seeds o2.
+Proof.
+  exists [10; 20], [0; 1]%nat, [1; 0]%nat. split; [apply Permutation_refl|].
+  split; [apply perm_swap|]. vm_compute. discriminate.
+Qed.
+
+Lemma build_table_order_independent (tbl : list build_row) :
+  forallb (fun r => build_is_map (snd r)) tbl = true ->
+  forall r, In r tbl -> forall seeds order,
+    Permutation order (seq 0 (List.length seeds)) -> islands (snd r) seeds order = seeds.
+Proof.
+  intros H r Hr seeds order P. rewrite forallb_forall in H. specialize (H r Hr).
+  destruct (snd r); [|discriminate]. apply islands_map_permutation, P.
+Qed.
+
+(* ------------------------------------------------------------------ one thread of control *)
+
+Section BracketFacts.
+  Variable gen : Type.
+  Variable seed_gen : Z -> gen.
+
+  (* where everything unwinds to: the state saved by the outermost open bracket, or - with no bracket
+     open - the current state *)
+  Definition bottom (g : gen) (saved : list (Z * gen)) : gen :=
+    match rev saved with (_, g0) :: _ => g0 | [] => g end.
+
+  Lemma bottom_push g saved t g1 :
+    bottom g1 ((t, g) :: saved) = bottom g saved.
+  Proof.
+    unfold bottom. cbn [rev]. destruct (rev saved) as [|[t0 g0] r] eqn:E; reflexivity.
+  Qed.
+
+  Lemma bottom_pop g saved t gs :
+    bottom gs saved = bottom g ((t, gs) :: saved).
+  Proof. symmetry. apply bottom_push. Qed.
+
+  (* under the LIFO discipline the exiting thread's saved state is the top of the stack *)
+  Lemma take_saved_top t g saved : take_saved gen t ((t, g) :: saved) = Some (g, saved).
+  Proof. cbn. rewrite Z.eqb_refl. reflexivity. Qed.
+
+  Lemma lifo_run_bottom tr :
+    forall g saved st',
+      lifo_run tr (map fst saved) = Some st' ->
+      let '(g', saved') := run_steps gen seed_gen tr g saved in
+      map fst saved' = st' /\ bottom g' saved' = bottom g saved.
+  Proof.
+    induction tr as [|[t s|t] r IH]; intros g saved st' H.
+    - cbn in *. inversion H. auto.
+    - cbn [lifo_run] in H. cbn [run_steps].
+      specialize (IH (seed_gen s) ((t, g) :: saved) st' H).
+      destruct (run_steps gen seed_gen r (seed_gen s) ((t, g) :: saved)) as [g' saved'].
+      destruct IH as [IH1 IH2]. split; [exact IH1|]. rewrite IH2. apply bottom_push.
+    - cbn [lifo_run] in H. destruct saved as [|[t' gs] saved]; cbn [map fst] in H; [discriminate|].
+      destruct (t =? t') eqn:E; [|discriminate]. apply Z.eqb_eq in E. subst t'.
+      cbn [run_steps]. rewrite take_saved_top.
+      specialize (IH gs saved st' H).
+      destruct (run_steps gen seed_gen r gs saved) as [g' saved'].
+      destruct IH as [IH1 IH2]. split; [exact IH1|]. rewrite IH2. apply bottom_pop.
+  Qed.
+
+  (* THE single-thread guarantee: if the brackets on the shared generator are entered and left in LIFO
+     order - whatever threads take part, however deeply they nest - the generator ends exactly where it
+     started *)
+  Lemma lifo_restores tr g :
+    lifo tr = true -> run_steps gen seed_gen tr g [] = (g, []).
+  Proof.
+    unfold lifo. destruct (lifo_run tr []) as [[|x st]|] eqn:E; try discriminate. intros _.
+    pose proof (lifo_run_bottom tr g [] [] E) as H.
+    destruct (run_steps gen seed_gen tr g []) as [g' saved']. destruct H as [H1 H2].
+    destruct saved'; [|discriminate]. unfold bottom in H2. cbn in H2. subst. reflexivity.
+  Qed.
+End BracketFacts.
+
+Lemma lifo_run_app a b st st1 :
+  lifo_run a st = Some st1 -> lifo_run (a ++ b) st = lifo_run b st1.
+Proof.
+  revert st. induction a as [|[t s|t] r IH]; intros st H; cbn in *.
+  - inversion H. reflexivity.
+  - apply IH, H.
+  - destruct st as [|t' st]; [discriminate|]. destruct (t =? t'); [apply IH, H | discriminate].
+Qed.
+
+(* every program of the model, run by one thread, uses the brackets in LIFO order *)
+Lemma btrace_lifo_run p : forall st, lifo_run (btrace p) st = Some st.
+Proof.
+  induction p as [| k | | a IHa b IHb | [s|] a IHa | | s | i a IHa b IHb]; intros st; cbn [btrace]; try reflexivity.
+  - destruct (raises a); [apply IHa|]. rewrite (lifo_run_app _ _ _ _ (IHa st)). apply IHb.
+  - cbn [lifo_run]. rewrite (lifo_run_app _ _ _ _ (IHa (0 :: st))). cbn. reflexivity.
+  - apply IHa.
+  - destruct (raises a); [apply IHa|]. rewrite (lifo_run_app _ _ _ _ (IHa st)). apply IHb.
+Qed.
+
+Lemma btrace_lifo p : lifo (btrace p) = true.
+Proof. unfold lifo. rewrite btrace_lifo_run. reflexivity. Qed.
+
+(* two threads whose brackets overlap without nesting: the second one saved the FIRST one's seeded
+   state and puts it back last - the process-wide generator is left in the seed-1 stream *)
+Lemma interleaved_brackets_leak :
+  let tr := [BEnter 1 1; BEnter 2 2; BExit 1; BExit 2] in
+  lifo tr = false /\ fst (run_steps fgen fseed tr g_init []) = fseed 1 /\ fseed 1 <> g_init.
+Proof. vm_compute. repeat split; discriminate. Qed.
